@@ -137,6 +137,24 @@ Definition good_C04 (L : lang) (e : c04_expect) (s : c04_seen) : bool :=
   str_eqb (c04s_base s) (c04e_ref e) &&
   Bool.eqb (c04s_null_union s) (c04_expected_null_union L e).
 
+(* Go's configuration switch `no_pointer_slice = true`: Option<Vec<T>> is written `[]T` (a nil slice IS the absent
+   value), i.e. the type-level part of the idiom (`*`) is deliberately not written at a position whose IR type is
+   Option<Vec<_>> ([bare]); the tag part (`,omitempty`; named fields only) stays, and so does everything else:
+   Option<[T;N]>, Option<&[T]>, Option<Option<Vec<T>>> keep their `*`, serde(default) on a non-Option Vec<T> still
+   writes `*[]T`.  With bare = false this is good_C04 Go (Proofs.C04_Back.good_C04_go_false). *)
+Definition c04_go_bare (no_pointer_slice : bool) (t : rtype) : bool :=
+  no_pointer_slice && match t with ROption (RVec _) => true | _ => false end.
+Definition good_C04_go (bare : bool) (e : c04_expect) (s : c04_seen) : bool :=
+  let exp_type := c04_expected_optional e && negb bare in
+  Bool.eqb (c04s_type_mark s) exp_type &&
+  Bool.eqb (c04s_init_mark s) (if c04_fieldlike (c04e_pos e) then c04_expected_optional e else exp_type) &&
+  str_eqb (c04s_base s) (c04e_ref e) &&
+  Bool.eqb (c04s_null_union s) false.
+(* a field with a Go type override (#[typeshare(go(type = ".."))]): the type text is the user's (typeshare prints it
+   verbatim, `*` included or not); the part of the idiom typeshare still decides is the tag *)
+Definition good_C04_go_override (e : c04_expect) (s : c04_seen) : bool :=
+  Bool.eqb (c04s_init_mark s) (c04_expected_optional e).
+
 (* one observed position of a generated file, as the readers (Spec/C04Readers.v) and the text
    extractors report it *)
 Record c04_row := {
